@@ -804,6 +804,7 @@ def main():
     try:
         import py2coq_ext
         py2coq_ext.install(tr, sys.modules[__name__])
+        py2coq_ext.install_skel(tr, sys.modules[__name__])
     except ImportError:
         pass
     tr.run_all()
